@@ -218,7 +218,8 @@ func (c *vwapiCase) opWsl(msg []byte) string {
 		t := time.NewTimer(vwapiWait - time.Second)
 		defer t.Stop()
 		select {
-		case c.admin.Send <- hub.Message{Sender: *c.probe, Data: msg, Type: websocket.TextMessage, Sent: time.Now()}:
+		// through the hub's own fan-out on the control topic, as a control connection's frame travels in the host
+		case c.app.Hub.Broadcast <- hub.Message{Sender: *c.probe, Data: msg, Type: websocket.TextMessage, Sent: time.Now()}:
 		case <-t.C:
 			return "stuck-send"
 		}
